@@ -131,6 +131,10 @@ def rules(chk, db):
     encrules.read_rules(chk, db, want=('ENS', 'GRD', 'RST'))      # RST: no decode into storage that was never constructed
     encrules.narrowing(chk, db, 'NR.r', {'ReadPayload', 'Read'})
     termination(chk, db, 'TM')
+    # a wrapper decoder stores each component through that component's own decoder and type: decoding an enum / error code as a
+    # wider integer writes past the destination object
+    chk.rule('CO', 'wrapper decoders are composed of exactly the documented component encodings (stored with the component\'s own type)', minimum=30)
+    encrules.composition(chk, db, 'CO', ('ReadPayload', 'Match'))
     chk.rule('EP', 'no end pointer is formed by subscripting a std::array / std::vector at its extent (operator[] precondition)', minimum=2)
     end_pointers(chk, db, 'EP')
     tablerules.rules(chk, db, {'TS', 'TR'})
